@@ -20,8 +20,9 @@ Refs == ndJsonDeserialize(IOEnv.REFTABLE)
 SeqToSet(s) == {s[i] : i \in 1..Len(s)}
 Spread(r) == {0, r.n - 1, (r.val + 1) % r.n, (r.val + r.n - 1) % r.n, (r.val * 7 + 3) % r.n, r.n \div 2}
 InRangeVals(r) == IF r.n = 0 THEN {} ELSE IF r.n <= MaxAll THEN 0..(r.n - 1) ELSE Spread(r)
-CorruptVals(r) == ({-1, r.n, r.n + 1, r.block} \cup SeqToSet(r.anc) \cup InRangeVals(r)) \ {r.val}
-Kind(r, v) == IF v = -1 THEN "empty" ELSE IF v = r.n THEN "count" ELSE IF v > r.n THEN "beyond"
+\* far beyond the count: 0x7FFFFFFF, and 0xFFFFFFFE (written as -2: TLC integers are 32-bit, the harness stores the low 32 bits)
+CorruptVals(r) == ({-1, r.n, r.n + 1, r.block, 2147483647, -2} \cup SeqToSet(r.anc) \cup InRangeVals(r)) \ {r.val}
+Kind(r, v) == IF v = -1 THEN "empty" ELSE IF v = r.n THEN "count" ELSE IF v = 2147483647 \/ v = -2 THEN "far" ELSE IF v > r.n THEN "beyond"
               ELSE IF v = r.block THEN "self" ELSE IF v \in SeqToSet(r.anc) THEN "ancestor" ELSE "inrange"
 Faults == UNION {{[k |-> k, v |-> v] : v \in CorruptVals(Refs[k])} : k \in 1..Len(Refs)}
 Init == f \in Faults
